@@ -58,6 +58,7 @@ ApplyF(ms, a) ==
     [] a.op = "GetRecord"  -> DoGetRecord(ms, a)
     [] a.op = "CompareAll" -> DoCompareAll(ms, a)
     [] a.op = "CopyRec"    -> DoCopyRec(ms, a)
+    [] a.op \in {"RT", "Export"} -> Ok(ms, NoQN)   \* exports do not change the state (C13)
     [] a.op = "IO"         -> Ok(ms, NoQN)       \* the stream side is IO.tla
     [] a.op = "Save"       -> Ok(ms, NoQN)       \* the file-system side is FS.tla
 
